@@ -304,6 +304,11 @@ func renderStringarray(data map[string]any, key, oldkey string, example string) 
 
 	var output []string
 	for _, s := range sa {
+		if comment == "" {
+			// a value from the user's file: quote it where YAML needs that
+			// ("*" would be an alias, "a: b" a map, "#x" a comment)
+			s = yamlf(s)
+		}
 		output = append(output, fmt.Sprintf("%s- %s", comment, s))
 	}
 	return comment + key + ":\n      " + strings.Join(output, "\n      ")
